@@ -48,6 +48,19 @@ pub fn exercise(bytes: &[u8], st: &mut Stats, decoded: &dyn Fn() -> String) -> R
             for i in module.all_inst_iter() {
                 no_panic("Instruction::disassemble", || i.disassemble()).map_err(wrap)?;
                 no_panic("Instruction::assemble", || i.assemble()).map_err(wrap)?;
+                no_panic("Display/Debug for Instruction", || (format!("{:?}", i), i.operands.iter().map(|o| format!("{}", o)).collect::<Vec<_>>())).map_err(wrap)?;
+            }
+            // the same traits on the sub-structures of the accepted module
+            for f in &module.functions {
+                no_panic("Function::assemble", || f.assemble()).map_err(wrap)?;
+                no_panic("Function::disassemble", || f.disassemble()).map_err(wrap)?;
+                for b in &f.blocks {
+                    no_panic("Block::assemble", || b.assemble()).map_err(wrap)?;
+                    no_panic("Block::disassemble", || b.disassemble()).map_err(wrap)?;
+                }
+            }
+            if let Some(h) = &module.header {
+                no_panic("ModuleHeader::assemble/disassemble", || (h.assemble(), h.disassemble())).map_err(wrap)?;
             }
         }
         Err(e) => {
